@@ -66,6 +66,23 @@ TOY_OK = [".data\nv: .word 1,2,3\n.text\nLDA v\nADD v\nSTO 4000", "INC\nDEC\nNOT
 TOY_BAD = [".data\nq: .word 7, 7\n.text\nLDA y", "ADD 0x", "a:\na:\nINC", "INC\nx: .word 1"]
 
 
+# texts that share label / variable names: a load that fails late (after its labels and data were processed) must leave
+# nothing behind that a later load can see
+RV_SHARED = [
+    (["L: addi x1, x0, 1\nloop: beq x0, x0, missing"], "L: addi x1, x0, 2\nloop: addi x2, x0, 3"),          # same labels declared again
+    (["L: addi x1, x0, 1\nnop\nbeq x0, x0, missing"], "nop\nbeq x0, x0, L"),                                # label only referred to: must fail as in a fresh simulation
+    ([".data\nv: .word 7\n.text\nlw x1, v\nbeq x0, x0, missing"], "lw x1, v"),                              # variable only referred to
+    (["L: addi x1, x0, 1"], "nop\nbeq x0, x0, L"),                                                             # after a SUCCESSFUL load too
+    ([".data\nv: .word 7\n.text\nlw x1, v", "addi x1, x0, 01"], ".data\nv: .word 9\n.text\nlw x2, v"),
+]
+TOY_SHARED = [
+    (["L: INC\nBRZ missing"], "L: DEC\nBRZ L"),
+    (["L: INC\nBRZ missing"], "INC\nBRZ L"),
+    ([".data\nv: .word 7\n.text\nLDA v\nBRZ missing"], "LDA v"),
+    (["L: INC"], "BRZ L"),
+]
+
+
 def reload_patterns(rng, tier):
     """the same text loaded again after a successful / a failing load of another text, and twice in a row — for every
     simulation kind, independent of the seed"""
@@ -86,6 +103,19 @@ def reload_patterns(rng, tier):
                         lines += [f"sim.load {rvasmgen.hx(t)}", "sim.snap"]
                     lines += ["sim.step", "sim.done", "sim.snap", "sim.run 300", "sim.done", "sim.snap", "sim.step", "sim.snap"]
                 yield Case("reload-patterns", lines, None, {"mode": kind, "loads": len(texts)})
+        for earlier, last in (TOY_SHARED if kind == "toy" else RV_SHARED):
+            texts = list(earlier) + [last]
+            if kind == "toy":
+                lines = ["toy.new", "toy.snap"]
+                for t in texts:
+                    lines += [f"toy.asm {toyasmgen.hx(t)}", "toy.snap"]
+                lines += ["toy.call step", "toy.snap", "toy.run 300", "toy.snap"]
+            else:
+                lines = [f"sim.new {kind} 1 - -", "sim.snap"]
+                for t in texts:
+                    lines += [f"sim.load {rvasmgen.hx(t)}", "sim.snap"]
+                lines += ["sim.step", "sim.done", "sim.snap", "sim.run 300", "sim.done", "sim.snap"]
+            yield Case("reload-patterns", lines, None, {"mode": kind, "loads": len(texts)})
 
 
 def cases(rng, tier):
